@@ -34,6 +34,10 @@ Lemma batch_flag_is_cud_is_new_for_every_kind : c05_store_put_kinds = [].
 Proof. reflexivity. Qed.
 
 (* newUpdateRec resets the isNew flag it copied from the record object it was given (repair afe41998e of finding F-A) *)
+(* PutPlog leaves an event it refused (conditional insert answered "exists") unmarked: isStored, the only thing
+   GetEventReapplier looks at, is set on the normal exit only and a refusal returns early *)
+Lemma refused_plog_event_is_not_marked_stored : c05_refused_plog_marks_stored = false.
+Proof. reflexivity. Qed.
 Lemma update_rows_are_never_new : c05_update_inherits_isnew = false.
 Proof. reflexivity. Qed.
 
@@ -175,7 +179,8 @@ Proof. exact (apply_frame_proved inserted_rows_never_expire). Qed.
 Theorem agrees_implies_satisfies :
   forall (stamp : V -> N) (veqb : V -> V -> bool), (forall a b, veqb a b = true <-> a = b) ->
   forall t : gtrace V,
-  c05_update_inherits_isnew = false \/ gclean t = true ->
+  (c05_update_inherits_isnew = false /\ c05_refused_plog_marks_stored = false /\ c05_failed_plog_marks_stored = false)
+  \/ gclean t = true ->
   gagrees stamp veqb t = true -> gsatisfies stamp veqb t = true.
 Proof.
   exact (fun stamp veqb veqb_eq =>
@@ -183,11 +188,37 @@ Proof.
       new_records_guarded_at_level_0 reapply_records_overwrites reapply_wlog_overwrites).
 Qed.
 
+(* For the code as it is (side conditions update_rows_are_never_new, refused_plog_event_is_not_marked_stored) the
+   only traces outside the link are those that re-apply an event whose PutPlog FAILED with a storage error
+   (open finding P-D: PutPlog marks it stored all the same); with findings/C05/P-D.diff the translator reports
+   c05_failed_plog_marks_stored = false and the link holds for every trace. *)
 Theorem agrees_implies_satisfies_full :
   forall (stamp : V -> N) (veqb : V -> V -> bool), (forall a b, veqb a b = true <-> a = b) ->
   forall t : gtrace V,
+  c05_failed_plog_marks_stored = false \/ no_failed_reapply t = true ->
   gagrees stamp veqb t = true -> gsatisfies stamp veqb t = true.
-Proof. exact (fun stamp veqb E t => agrees_implies_satisfies stamp veqb E t (or_introl update_rows_are_never_new)). Qed.
+Proof.
+  exact (fun stamp veqb veqb_eq t =>
+    link_but_failed_proved inserted_rows_never_expire batch_flag_is_cud_is_new_for_every_kind stamp veqb veqb_eq plog_guarded_at_levels_0_1 wlog_guarded_at_levels_0_1
+      new_records_guarded_at_level_0 reapply_records_overwrites reapply_wlog_overwrites t update_rows_are_never_new refused_plog_event_is_not_marked_stored).
+Qed.
+
+(* "Only ... explicit re-apply during recovery may overwrite": an event object whose PutPlog was refused with
+   SequencesViolation is not in the log and is not accepted by GetEventReapplier - the step answers with the
+   panic and the store is untouched, at every level, for both re-applier operations.  (s_mode 1) *)
+Theorem refused_event_is_not_reappliable :
+  forall trust now (st : store) (s : step V),
+  s_mode s = 1 -> is_reapply (s_kind s) = true ->
+  run_step trust now st s = Some (st, RPanic, []).
+Proof. exact (refused_event_not_reappliable_proved refused_plog_event_is_not_marked_stored). Qed.
+
+(* the same for an event whose PutPlog failed with a storage error (s_mode 2) - once PutPlog no longer marks it *)
+Theorem failed_event_is_not_reappliable_when_repaired :
+  c05_failed_plog_marks_stored = false ->
+  forall trust now (st : store) (s : step V),
+  s_mode s = 2 -> is_reapply (s_kind s) = true ->
+  run_step trust now st s = Some (st, RPanic, []).
+Proof. exact failed_event_not_reappliable_proved. Qed.
 
 End C05.
 
@@ -213,6 +244,16 @@ Example updates_succeed_full_refuted :
     (forall it, In it items -> it_new it = false /\ found now st it = true) /\
     snd (run_recs (rec_code KApply 0) now st items) = RViolation.
 Proof. exact updates_succeed_full_refuted_proved. Qed.
+
+(* finding P-D: while PutPlog marks an event stored although its storage write failed, the event is accepted for
+   re-apply and overwrites an existing record at level 0 *)
+Example failed_event_reappliable_refuted :
+  c05_failed_plog_marks_stored = true ->
+  exists (st st' : store N) (s : step N) cs,
+    s_mode s = 2 /\ s_kind s = KReapplyRecs /\
+    run_step 0 0%Z st s = Some (st', ROk, cs) /\
+    get 0%Z st [1] [2] = Some 7 /\ get 0%Z st' [1] [2] = Some 8.
+Proof. exact failed_event_reappliable_refuted_proved. Qed.
 
 (* ---- non-vacuity ---- *)
 Definition ex_store : store N := put (put [] [0; 3] [0; 10] 70) [0; 4; 9] [0; 1] 50.
@@ -262,10 +303,10 @@ Example link_nonvacuous :
   let it2 := mkItem [0; 3] [0; 10] 0 true false false (2, 101) in
   let o := mkObs (Some (1, 100)) (Some (1, 100)) (Some 100) in
   let t := mkTrace 0 0
-    [mkStep KPlog false [mkSlot it1 false (mkObs None None None) o] ROk [CIns [0; 3] [0; 10] (1, 100) 0%Z true];
-     mkStep KPlog false [mkSlot it2 false o o] RViolation [CIns [0; 3] [0; 10] (2, 101) 0%Z false]] in
+    [mkStep KPlog 0 false [mkSlot it1 false (mkObs None None None) o] ROk [CIns [0; 3] [0; 10] (1, 100) 0%Z true];
+     mkStep KPlog 0 false [mkSlot it2 false o o] RViolation [CIns [0; 3] [0; 10] (2, 101) 0%Z false]] in
   agrees t = true /\ satisfies t = true
-  /\ satisfies (mkTrace 0 0 [mkStep KPlog false [mkSlot it2 false o (written (@snd N N) it2)] ROk []]) = false.
+  /\ satisfies (mkTrace 0 0 [mkStep KPlog 0 false [mkSlot it2 false o (written (@snd N N) it2)] ROk []]) = false.
 Proof. vm_compute. repeat split. Qed.
 
 (* another writer filled the slot underneath the node's cache (the node still sees it empty: top and API
@@ -277,10 +318,10 @@ Example foreign_writer_nonvacuous :
   let e := mkObs None None None in
   let f := mkObs None (Some (1, 100)) None in
   let t := mkTrace 2 0
-    [mkStep KForeign false [mkSlot itB true e f] ROk [];
-     mkStep KPlog false [mkSlot itA true f f] RViolation [CIns [0; 3] [0; 10] (2, 101) 0%Z false]] in
+    [mkStep KForeign 0 false [mkSlot itB true e f] ROk [];
+     mkStep KPlog 0 false [mkSlot itA true f f] RViolation [CIns [0; 3] [0; 10] (2, 101) 0%Z false]] in
   agrees t = true /\ satisfies t = true
-  /\ satisfies (mkTrace 2 0 [mkStep KPlog false [mkSlot itA true f (mkObs (Some (2, 101)) (Some (2, 101)) (Some 101))] ROk []]) = false.
+  /\ satisfies (mkTrace 2 0 [mkStep KPlog 0 false [mkSlot itA true f (mkObs (Some (2, 101)) (Some (2, 101)) (Some 101))] ROk []]) = false.
 Proof. vm_compute. repeat split. Qed.
 
 Print Assumptions log_append_refused_partial.
@@ -293,6 +334,9 @@ Print Assumptions updates_always_succeed_partial.
 Print Assumptions updates_always_succeed_when_flag_reset.
 Print Assumptions updates_always_succeed.
 Print Assumptions agrees_implies_satisfies_full.
+Print Assumptions refused_event_is_not_reappliable.
+Print Assumptions failed_event_is_not_reappliable_when_repaired.
+Print Assumptions failed_event_reappliable_refuted.
 Print Assumptions updates_succeed_full_refuted.
 Print Assumptions apply_unguarded_overwrites.
 Print Assumptions apply_frame.
